@@ -177,7 +177,13 @@ def run(ctx):
         ctx.extra['bare_next_sites'] = [list(x) for x in _info['sites']]
     except Exception as e:   # noqa
         ctx.bridge('translator: bare next() sites extracted', False, repr(e))
-    ctx.prove(['PetlProofs.Props.C20'], REQUIRED + ['Petl.C20.no_unguarded_data_next'])
+    from translators import fingerprints as _fp
+    try:
+        _fpi = _fp.generate()
+        ctx.bridge('translator: fingerprints of the petl sources this check vouches for (%d entries over all properties)' % _fpi['names'], True)
+    except Exception as e:   # noqa
+        ctx.bridge('translator: source fingerprints extracted', False, repr(e))
+    ctx.prove(['PetlProofs.Props.C20', 'PetlProofs.Snapshot.C20'], REQUIRED + ['Petl.C20.no_unguarded_data_next', 'Petl.Snapshot.C20_sources_as_validated'])
     rng = ctx.rng
     cat = catalogue(etl)
     shapes = [['k', 'v'], ['k', 'v', 'w']]
